@@ -1,7 +1,7 @@
 """C02 - string, fields, query and uri forms of a typed Sid denote the same Sid"""
-from ..rules import exc, mutation, identity, sidops, pathops, memo
+from ..rules import config, exc, mutation, identity, sidops, pathops, memo
 
-DECIDES = ("the structural conditions without which no round trip can hold: the (string, type, fields) triple of every Sid comes from one resolver operation and never aliases the caller's dictionary, fields re-derived in template order with the stored type (R-TRIPLE), construction typestate (R-INIT), copy / repr / hash / == are functions of the uri and uri of (type, string) (R-IDENT), Sid(query=q) is Sid('?'+q) and as_query renders the own fields through urlencode / parse_qsl of the whole mapping (R-QUERYROUTE), the string of a typed Sid is the canonical rendering of its fields (R-CANON), totality of the string and fields factories (R-EXC). Also: Sid(fields=d) types and formats d itself, all of it (R-FIELDSARG); the '~' prefix is removed only from values that carry it (R-UPDATE).")
+DECIDES = ("the structural conditions without which no round trip can hold: the (string, type, fields) triple of every Sid comes from one resolver operation and never aliases the caller's dictionary, fields re-derived in template order with the stored type (R-TRIPLE), construction typestate (R-INIT), copy / repr / hash / == are functions of the uri and uri of (type, string) (R-IDENT), Sid(query=q) is Sid('?'+q) and as_query renders the own fields through urlencode / parse_qsl of the whole mapping (R-QUERYROUTE), the string of a typed Sid is the canonical rendering of its fields (R-CANON), totality of the string and fields factories (R-EXC). Also: Sid(fields=d) types and formats d itself, all of it (R-FIELDSARG); the '~' prefix is removed only from values that carry it (R-UPDATE). Types with identical keys accept no common concrete string (R-KEYSETDISJ, NFA product); the query text carries the values verbatim and is cleaned the way urlsplit does before it is split (R-QUERYROUTE).")
 DOES_NOT_DECIDE = 'equality of the rebuilt Sid for concrete values (resolver evaluation), the choice among types with colliding key sets, urlencode/parse_qsl round trip on arbitrary characters'
 
 
@@ -19,4 +19,5 @@ def rules(ctx, tier):
         lambda: sidops.rule_fieldsarg(ctx),
         lambda: sidops.rule_update(ctx),
         lambda: memo.rule_nostate(ctx),
+        lambda: config.rule_keysetdisj(ctx),
     ]
